@@ -25,6 +25,9 @@ import "net/netip"
 //@   ensures 0 <= advance && advance <= len(data)
 //@   ensures len(token) <= len(data)
 //@   ensures token != nil ==> advance == len(token)
+// a token is a whole record - never less than its own header (a scanner that is handed an empty token and no
+// advance makes no progress)
+//@   ensures token != nil ==> advance >= MRT_COMMON_HEADER_LEN
 
 //@ func (*Peer).decodeFromBytes
 //@   modifies p.*
